@@ -569,3 +569,75 @@ Module TopExamples.
     exists e. split; [exact H1|]. split; [exact H2|]. rewrite H3. vmr.
   Qed.
 End TopExamples.
+
+(** * 6. The typed getters' view (as the model reads a stored value: [existing_count] is the model of
+    [get_one::<u8>], the first value parsed as a number; [get_flag] reads the first value as a bool) *)
+Definition first_value (m : matches) (i : id) : option bytes :=
+  match fm_get i (ms_args m) with
+  | Some e => match concat (m_raw e) with v :: _ => Some v | [] => None end
+  | None => None
+  end.
+(** [ArgMatches::get_count] = [*get_one::<u8>(id)]: the stored decimal parsed back *)
+Definition get_count_view (m : matches) (i : id) : option N :=
+  match first_value m i with
+  | Some v => match parse_i64 v with Some z => Some (Z.to_N z) | None => None end
+  | None => None
+  end.
+(** [ArgMatches::get_flag] = [*get_one::<bool>(id)] *)
+Definition get_flag_view (m : matches) (i : id) : option bool :=
+  match first_value m i with
+  | Some v => if beq v s_true then Some true else if beq v s_false then Some false else None
+  | None => None
+  end.
+
+Theorem parse_top_get_count c0 bin toks os m a :
+  let c := build_self (with_bin c0 bin) in
+  top_class c0 bin toks os -> parse_top c0 (bin :: toks) = OOk m -> In a (c_args c) ->
+  count_flag a -> override_free c (a_id a) ->
+  a_default a = [[48]] -> a_env a = None -> a_default_ifs a = [] -> a_delim a = None ->
+  get_count_view m (a_id a) = Some (N.min (N.of_nat (count_occ (a_id a) os)) 255).
+Proof.
+  intros c TC HP Hin CF OF HDef HEnv HIfs HDel.
+  destruct (parse_top_count c0 bin toks os m a TC HP Hin CF OF) as [H1 _]. fold c in H1.
+  destruct (count_occ (a_id a) os) as [|k] eqn:En.
+  - pose proof (fold_absent c (a_id a) os (count_occ_zero (a_id a) os En)) as HFold.
+    assert (HDne : a_default a <> []) by (rewrite HDef; discriminate).
+    destruct (parse_top_default c0 bin toks os m a TC HP Hin HFold HEnv HIfs HDne HDel) as [e [Ge [Re _]]].
+    unfold get_count_view, first_value. rewrite Ge, Re, HDef. reflexivity.
+  - destruct (H1 ltac:(lia)) as [e [Ge [Re _]]].
+    unfold get_count_view, first_value. rewrite Ge, Re. cbn [concat app].
+    rewrite (dec_roundtrip (N.min (N.of_nat (S k)) 255)) by lia. rewrite N2Z.id. reflexivity.
+Qed.
+
+Theorem parse_top_get_flag c0 bin toks os m a b :
+  let c := build_self (with_bin c0 bin) in
+  top_class c0 bin toks os -> parse_top c0 (bin :: toks) = OOk m -> In a (c_args c) ->
+  a_get_action a = flag_action b -> a_takes_value a = false -> a_delim a = None ->
+  a_default_missing a = [flag_value b] -> a_default a = [flag_value (negb b)] ->
+  (forall os1 o os2, os = os1 ++ o :: os2 -> o_arg o = a -> Forall (unrelated c (a_id a)) os2 ->
+     get_flag_view m (a_id a) = Some b) /\
+  (count_occ (a_id a) os = 0%nat -> a_env a = None -> a_default_ifs a = [] ->
+     get_flag_view m (a_id a) = Some (negb b)).
+Proof.
+  intros c TC HP Hin EA TV HDel HDM HDef.
+  destruct (parse_top_flag c0 bin toks os m a b TC HP Hin EA TV HDel HDM HDef) as [H1 H2]. fold c in H1. split.
+  - intros os1 o os2 E1 E2 E3. destruct (H1 os1 o os2 E1 E2 E3) as [e [Ge [Re _]]].
+    unfold get_flag_view, first_value. rewrite Ge, Re. destruct b; reflexivity.
+  - intros E1 E2 E3. destruct (H2 E1 E2 E3) as [e [Ge [Re _]]].
+    unfold get_flag_view, first_value. rewrite Ge, Re. destruct b; reflexivity.
+Qed.
+
+Module TypedExamples.
+  Import TokExamples TopExamples.
+  Example get_count_k : get_count_view (result lineA) [107] = Some 3.
+  Proof.
+    assert (Hin : In (argB [107]) (c_args cb)) by in_args.
+    assert (OF : override_free cb (a_id (argB [107]))) by (apply override_free_dec; vmr).
+    assert (CF : count_flag (argB [107])) by (unfold count_flag; split; [|split; [|split]]; vmr).
+    pose proof (parse_top_get_count c1 bin lineA (occs lineA) (result lineA) (argB [107]) classA okA Hin CF OF
+                  ltac:(vmr) ltac:(vmr) ltac:(vmr) ltac:(vmr)) as H.
+    assert (E : a_id (argB [107]) = [107]) by vmr. rewrite E in H. rewrite H. vmr.
+  Qed.
+  Example get_flag_x : get_flag_view (result lineA) [120] = Some true /\ get_flag_view (result lineA) [110] = Some true.
+  Proof. split; vmr. Qed.
+End TypedExamples.
